@@ -26,13 +26,13 @@ Definition import_rev (d : bdoc) : rev :=
   R (N.succ (cur_gen d)) (cur_gen d) (negb (is_alive d)) (match raw_of d with Some b => b | None => 0 end).
 Definition import_doc (d : bdoc) (nc seq : N) : bdoc :=
   mkDoc (d_st d) (d_body d) nc
-        (Some (mkSync nc (body_crc d) (v_ver (import_vv d)) (import_rev d :: hist_of d) seq))
+        (Some (mkSync nc (body_crc d) (v_ver (import_vv d)) (import_rev d :: hist_of d) seq false))
         (Some (import_vv d)) (Some (mkMou nc (mou_pcas d))).
 
 Definition import_upd (d : bdoc) (seq : N) : update :=
   mkUpd (negb (is_alive d))
         (if doc_deleted d then Some (match raw_of d with Some b => b | None => 0 end) else None)
-        (mkSync 0 0 (v_ver (import_vv d)) (import_rev d :: hist_of d) seq) true
+        (mkSync 0 0 (v_ver (import_vv d)) (import_rev d :: hist_of d) seq false) true
         (Some (import_vv d, false)) (MouSet (mou_pcas d)).
 
 Lemma import_attempt_write s d s1 u :
@@ -248,43 +248,59 @@ Proof.
       rewrite A, T. reflexivity.
 Qed.
 
-Lemma gw_feed_nofire k s s' r : Inv s -> gw_feed true crc delcrc no_fire k s = (s', r) ->
-  ghosts s' = ghosts s /\
-  ((importable (doc s) = true /\ imports s' = N.succ (imports s) /\
+(* outcome of a hook-free feed delivery: an import of the bucket document, nothing, or the attachment-metadata
+   migration of a document that is (and stays) an own write *)
+Definition feed_outcome (s s' : state) : Prop :=
+  (importable (doc s) = true /\ imports s' = N.succ (imports s) /\
       exists seq, doc s' = import_doc (doc s) (N.succ (clk s)) seq) \/
-   (doc s' = doc s /\ imports s' = imports s)).
+  (doc s' = doc s /\ imports s' = imports s) \/
+  (own (doc s) = true /\ own (doc s') = true /\ hist_of (doc s') = hist_of (doc s) /\
+   bstate (doc s') = bstate (doc s) /\ imports s' = imports s).
+
+Lemma gw_feed_nofire k s s' r : Inv s -> gw_feed true crc delcrc no_fire k s = (s', r) ->
+  ghosts s' = ghosts s /\ feed_outcome s s'.
 Proof.
   intros HI E. unfold gw_feed in E. set (ev := nth (N.to_nat k) (evs s) absent_doc) in *.
-  assert (Triv : forall r0, (s, r0) = (s', r) ->
-    ghosts s' = ghosts s /\
-    ((importable (doc s) = true /\ imports s' = N.succ (imports s) /\
-        exists seq, doc s' = import_doc (doc s) (N.succ (clk s)) seq) \/
-     (doc s' = doc s /\ imports s' = imports s))) by (intros r0 X; inversion X; subst; auto).
+  assert (Triv : forall r0, (s, r0) = (s', r) -> ghosts s' = ghosts s /\ feed_outcome s s')
+    by (intros r0 X; inversion X; subst; split; auto; right; left; auto).
   assert (Run : forall isdel, isdel = negb (is_alive ev) -> d_st ev <> Absent ->
      (fst (import_run true crc delcrc no_fire true isdel ev (raw_of ev) s), ROk) = (s', r) ->
-    ghosts s' = ghosts s /\
-    ((importable (doc s) = true /\ imports s' = N.succ (imports s) /\
-        exists seq, doc s' = import_doc (doc s) (N.succ (clk s)) seq) \/
-     (doc s' = doc s /\ imports s' = imports s))).
+    ghosts s' = ghosts s /\ feed_outcome s s').
   { intros isdel -> NA X.
     destruct (import_run true crc delcrc no_fire true (negb (is_alive ev)) ev (raw_of ev) s) as [s1 ir] eqn:EI.
     apply import_run_nofire in EI; auto; [|apply (nth_Snap crc delcrc ka kb no_fire (no_fire_ok crc delcrc ka kb)); auto].
-    inversion X; subst s1 r. destruct EI as [G [(_ & A & B & C)|(_ & A & B)]]; auto. }
+    inversion X; subst s1 r. destruct EI as [G [(_ & A & B & C)|(_ & A & B)]]; split; auto.
+    - left; auto.
+    - right; left; auto. }
+  assert (Mig : forall sy, d_st ev <> Absent -> d_sync ev = Some sy ->
+     sd_is_sg_write sy (d_cas ev) (Import.body_crc crc delcrc ev) (d_vv ev) = true ->
+     ((if s_att sy then migrate crc ev sy s else s), ROk) = (s', r) -> ghosts s' = ghosts s /\ feed_outcome s s').
+  { intros sy NA Es SG X. destruct (s_att sy); [|eapply Triv; eauto].
+    assert (Em : s' = migrate crc ev sy s) by (inversion X; auto). clear X E Triv Run.
+    assert (G : ghosts (migrate crc ev sy s) = ghosts s) by (unfold migrate; destruct (_ && _); reflexivity).
+    assert (Im : imports (migrate crc ev sy s) = imports s) by (unfold migrate; destruct (_ && _); reflexivity).
+    destruct (migrate_ok crc delcrc ka kb no_fire (no_fire_ok crc delcrc ka kb) ev sy s HI) as (_ & _ & Hm); auto.
+    { apply (nth_Snap crc delcrc ka kb no_fire (no_fire_ok crc delcrc ka kb)); auto. }
+    rewrite Em. split; [exact G|]. destruct Hm as [Eq|(_ & O & O' & H1 & H2)].
+    - right; left. rewrite Eq. auto.
+    - right; right. repeat split; auto. }
   destruct (d_st ev) eqn:St; [eapply Triv; eauto| |].
   - assert (T : is_tomb ev = false) by (unfold is_tomb; rewrite St; reflexivity).
     assert (A : negb (is_alive ev) = false) by (unfold is_alive; rewrite St; reflexivity).
     rewrite T in E. cbn [andb] in E.
-    destruct (d_sync ev) as [sy|].
-    + destruct (sd_is_sg_write sy (d_cas ev) (Import.body_crc crc delcrc ev) (d_vv ev)); [eapply Triv; eauto|].
-      eapply (Run false); eauto; congruence.
+    destruct (d_sync ev) as [sy|] eqn:Es.
+    + destruct (sd_is_sg_write sy (d_cas ev) (Import.body_crc crc delcrc ev) (d_vv ev)) eqn:SG.
+      * eapply Mig; eauto. congruence.
+      * eapply (Run false); eauto; congruence.
     + eapply (Run false); eauto; congruence.
   - assert (T : is_tomb ev = true) by (unfold is_tomb; rewrite St; reflexivity).
     assert (A : negb (is_alive ev) = true) by (unfold is_alive; rewrite St; reflexivity).
     rewrite T in E. cbn [andb] in E.
     destruct (no_xattrs ev); [eapply Triv; eauto|].
-    destruct (d_sync ev) as [sy|]; [|eapply Triv; eauto].
-    destruct (sd_is_sg_write sy (d_cas ev) (Import.body_crc crc delcrc ev) (d_vv ev)); [eapply Triv; eauto|].
-    eapply (Run true); eauto; congruence.
+    destruct (d_sync ev) as [sy|] eqn:Es; [|eapply Triv; eauto].
+    destruct (sd_is_sg_write sy (d_cas ev) (Import.body_crc crc delcrc ev) (d_vv ev)) eqn:SG.
+    + eapply Mig; eauto. congruence.
+    + eapply (Run true); eauto; congruence.
 Qed.
 
 End Char.
